@@ -6,6 +6,7 @@ pub mod c15;
 pub mod c16;
 pub mod c17;
 pub mod c18;
+pub mod c28;
 pub mod c32;
 pub mod c34;
 pub mod c35;
@@ -38,6 +39,7 @@ pub const REGISTRY: &[(&str, fn(&mut Ctx))] = &[
     ("C25", oracle::run_c25),
     ("C26", conv::run_c26),
     ("C27", conv::run_c27),
+    ("C28", c28::run),
     ("C29", oracle::run_c29),
     ("C30", gt::run_c30),
     ("C31", gt::run_c31),
